@@ -229,7 +229,7 @@ async fn run_history(self_id: u8, evs: &[Ev]) -> RunOut {
                         break;
                     }
                     n += 1;
-                    if n > 10_000 {
+                    if n > 400 {
                         out.stuck = true;
                         break;
                     }
@@ -382,7 +382,7 @@ fn do_diff(rt: &tokio::runtime::Runtime, w: &mut CaseWriter, self_id: u8, prev: 
                     break;
                 }
                 n += 1;
-                if n > 10_000 {
+                if n > 400 {
                     return None;
                 }
             }
